@@ -7,6 +7,29 @@ from . import z as Z
 from .values import VRef, HInst, HList, HSet, HDict, VObj
 
 
+_QMEMO = {}
+
+
+def _has_quant(t):
+    k = t.get_id()
+    r = _QMEMO.get(k)
+    if r is None:
+        r = False
+        stack = [t]
+        seen = 0
+        while stack and seen < 4000:
+            e = stack.pop()
+            seen += 1
+            if z3.is_quantifier(e):
+                r = True
+                break
+            if z3.is_app(e):
+                stack.extend(e.children())
+        _QMEMO[k] = (t, r)
+        return r
+    return r[1]
+
+
 class Unsupported(Exception):
     """The source left the supported subset (never a verdict: exit 2)."""
 
@@ -67,7 +90,7 @@ class Obligation(object):
 
 
 class Ctx(object):
-    FEAS_TIMEOUT_MS = 3000
+    FEAS_TIMEOUT_MS = 400
 
     def __init__(self, engine, trail):
         self.engine = engine
@@ -91,7 +114,10 @@ class Ctx(object):
 
     # -- forking -----------------------------------------------------------
     def _feasible(self, cond):
-        r, _, _ = Z.check(Z.AXIOMS.terms() + self.pc + [cond], self.FEAS_TIMEOUT_MS)
+        # quantified facts are left out: feasibility only prunes, "unknown" counts as feasible
+        ground = [a for a in Z.AXIOMS.terms() if not z3.is_quantifier(a)]
+        pc = [p for p in self.pc if not _has_quant(p)]
+        r, _, _ = Z.check(ground + pc + [cond], self.FEAS_TIMEOUT_MS, portfolio=False)
         self.engine.stats['feas_checks'] += 1
         return r != 'unsat'
 
